@@ -114,6 +114,15 @@ func genCleanScn(t *rapid.T, col *collector, so scnOpts) cleanScn {
 			n = rapid.IntRange(10, 12).Draw(t, "ncalls10")
 		}
 		skipping := so.skips && i > 0 && rapid.IntRange(0, 3).Draw(t, "skips") == 0
+		if so.skips && i > 0 && !skipping {
+			// a test whose name extends the name of a test that skips (user / user-admin / user#01) skips more often:
+			// several skipped names that share a prefix
+			for _, prev := range s.Tests {
+				if prev.SkipAt >= 0 && strings.HasPrefix(names[i], prev.Name) && rapid.Bool().Draw(t, "skiprelated") {
+					skipping = true
+				}
+			}
+		}
 		for k := 0; k < n; k++ {
 			api := rapid.SampledFrom([]string{"snap", "snap", "snap", "json", "yaml", "ssnap", "sjson"}).Draw(t, "api")
 			if skipping {
@@ -143,7 +152,9 @@ func genCleanScn(t *rapid.T, col *collector, so scnOpts) cleanScn {
 	for i := rapid.IntRange(0, 5).Draw(t, "nstale"); i > 0; i-- {
 		ci := rapid.IntRange(0, len(s.Cfgs)-1).Draw(t, "scfg")
 		var id string
-		switch rapid.IntRange(0, 3).Draw(t, "stalekind") {
+		switch rapid.IntRange(0, 4).Draw(t, "stalekind") {
+		case 4: // a sub test (recorded earlier, gone or not run now) of one of the program's tests: protected iff that test skips
+			id = entryID(names[rapid.IntRange(0, ntests-1).Draw(t, "stest")]+"/"+genSubName(t), rapid.IntRange(1, 3).Draw(t, "sord"))
 		case 0: // absent test
 			id = entryID(names[ntests], rapid.IntRange(1, 11).Draw(t, "sord"))
 		case 1: // ordinal just beyond the calls the test makes on THIS file (the same id may be live in another file)
@@ -334,11 +345,11 @@ func (s cleanScn) execute(root string, mode Mode, count int, record bool) error 
 				if !record && st.SkipAt == k {
 					switch st.SkipKind {
 					case "Skipf":
-						Skipf(ft, "skipped %d", k)
+						callSkip(func() { Skipf(ft, "skipped %d", k) })
 					case "SkipNow":
-						SkipNow(ft)
+						callSkip(func() { SkipNow(ft) })
 					default:
-						Skip(ft, "skipped")
+						callSkip(func() { Skip(ft, "skipped") })
 					}
 					ft.drain()
 					break
@@ -378,7 +389,7 @@ func (s cleanScn) execute(root string, mode Mode, count int, record bool) error 
 				}
 			}
 			if !record && st.SkipAt == len(st.Calls) {
-				Skip(ft, "skipped at the end")
+				callSkip(func() { Skip(ft, "skipped at the end") })
 				ft.drain()
 			}
 			ft.finish()
